@@ -779,6 +779,139 @@ def check_into_assets(chk, F, rid="R17.13"):
     chk.floor(rid, "cases", n, 12)
 
 
+# ---- R17.14 how witness elements are written into a scriptSig ---------------------------------------------------------------------------
+
+def _scriptint(bs):
+    """rust-bitcoin's read_scriptint: minimally encoded numbers of at most 4 bytes"""
+    if len(bs) > 4:
+        return None
+    if not bs:
+        return 0
+    if (bs[-1] & 0x7f) == 0 and (len(bs) <= 1 or (bs[-2] & 0x80) == 0):
+        return None
+    v = 0
+    for i, b in enumerate(bs):
+        v |= b << (8 * i)
+    if bs[-1] & 0x80:
+        v &= ~(0x80 << (8 * (len(bs) - 1)))
+        v = -v
+    return v
+
+
+def check_scriptsig_encoding(chk, F, rid="R17.14"):
+    from ..interp import Machine, Adt, PyVec, Panic, some, NONE, ok, err
+    from .. import builtins as B
+    from ..builtins import deref
+    chk.rule(rid, "witness elements are written into a pre-segwit scriptSig with minimal pushes (the standardness rule "
+                  "MINIMALDATA): util::witness_to_scriptsig emits OP_0 for the empty element, OP_1..OP_16 / OP_1NEGATE for the "
+                  "one-byte numbers - the `1` that selects an or_i / d: branch - and a plain push of the very bytes otherwise; "
+                  "Plan::satisfy for bare / pkh / sh outputs produces the same script as the direct satisfier for the same "
+                  "elements (signature, branch selector, empty vector, redeem script)")
+    try:
+        wts = F.fn("witness_to_scriptsig", file="util.rs")
+        psat = F.fn("satisfy", file="plan.rs", container="Plan<")
+        desc_type = F.fn("desc_type", file="descriptor/mod.rs")
+        explicit = F.fn("explicit_script", file="descriptor/mod.rs")
+        satisfy_self = F.fn("satisfy_self", file="satisfy/mod.rs")
+    except KeyError as e:
+        chk.fail(rid, "anchor", "missing anchor %s" % e, kind="unanalysable")
+        return
+    chk.saw(wts, psat)
+
+    def bytes_of(v):
+        v = deref(v)
+        if isinstance(v, PyVec):
+            return tuple(deref(x) for x in v.items)
+        raise Unsupported("bytes %r" % (v,))
+    h = {}
+    h["bitcoin::script::Builder::new"] = lambda m_, a, c: PyVec([])
+    h["bitcoin::script::Builder::push_int"] = lambda m_, a, c: PyVec(list(deref(a[0]).items) + [("int", deref(a[1]))])
+    h["bitcoin::script::Builder::push_slice"] = lambda m_, a, c: PyVec(list(deref(a[0]).items) + [("slice", bytes_of(a[1]))])
+    h["bitcoin::script::Builder::into_script"] = lambda m_, a, c: ("script", tuple(deref(a[0]).items))
+    h["bitcoin::script::read_scriptint"] = lambda m_, a, c: (lambda n_: ok(n_) if n_ is not None else err(Term("not-a-number")))(_scriptint(list(bytes_of(a[0]))))
+    h["bitcoin::blockdata::script::read_scriptint"] = h["bitcoin::script::read_scriptint"]
+    h["bitcoin::script::PushBytesBuf::try_from"] = lambda m_, a, c: ok(a[0])
+    h["std::vec::Vec::<T, A>::as_slice"] = lambda m_, a, c: a[0]
+    h["bitcoin::ScriptBuf::into_bytes"] = lambda m_, a, c: PyVec(list(deref(a[0])[1]))
+    saved = B.TRAIT_TABLE.get(("std::convert::TryFrom", "try_from"))
+
+    def tf(m_, a, c):
+        st = " ".join([c.get("self_ty") or ""] + (c.get("targs") or []))
+        if "PushBytes" in st:
+            return ok(a[0])
+        return saved(m_, a, c) if saved else B.NOT_HANDLED
+    B.TRAIT_TABLE[("std::convert::TryFrom", "try_from")] = tf
+    n = 0
+    try:
+        m = Machine(F, strict=True, hooks=h)
+
+        def minimal(e):
+            """the token MINIMALDATA prescribes for pushing the bytes e"""
+            if len(e) == 0:
+                return ("int", 0)
+            if len(e) == 1 and 1 <= e[0] <= 16:
+                return ("int", e[0])
+            if len(e) == 1 and e[0] == 0x81:
+                return ("int", -1)
+            return None          # any push of exactly these bytes
+
+        def same_bytes(tok, e):
+            if tok[0] == "slice":
+                return tuple(tok[1]) == tuple(e)
+            return _scriptint(list(e)) == tok[1]
+        def canon(tok):
+            # push_slice of nothing is the byte 0x00, i.e. OP_0
+            return ("int", 0) if tok == ("slice", ()) else tok
+        SIG = tuple([0x30] + [7] * 70)
+        elems = [(), (1,), (2,), (16,), (0x81,), (17,), (0x80,), (0,), (1, 0), (0xff, 0x7f), (5, 0, 0, 0, 0), SIG, tuple([9] * 33)]
+        for e in elems:
+            r = m.call_path(wts, [PyVec([PyVec(list(e)), PyVec(list(SIG))])])
+            n += 1
+            toks = deref(r)[1]
+            want = minimal(e)
+            good = len(toks) == 2 and same_bytes(toks[0], e) and (want is None or canon(toks[0]) == want)
+            chk.obligation(rid, good, "witness_to_scriptsig|%s" % ("".join("%02x" % b for b in e)[:20] or "empty"),
+                           "element %s is written as %r%s" % ("".join("%02x" % b for b in e)[:24] or "<empty>", toks[0] if toks else toks,
+                                                             ", MINIMALDATA asks for %r" % (want,) if want else ""), F.fns[wts]["span"])
+        DT = "descriptor::DescriptorType"
+        REDEEM = tuple([0x51] * 40)
+        for dt in ("Bare", "Pkh", "Sh"):
+            stack = [SIG, (1,), ()]
+            it = iter(stack)
+            hooks2 = dict(h)
+            hooks2[desc_type] = lambda m_, a, c, dt=dt: Adt(DT, dt, {})
+            hooks2[explicit] = lambda m_, a, c: ok(("script", tuple(("byte", b) for b in REDEEM)))
+            hooks2["bitcoin::ScriptBuf::into_bytes"] = lambda m_, a, c: PyVec(list(REDEEM))
+            hooks2[satisfy_self] = lambda m_, a, c: some(PyVec(list(deref(a[0]))))
+            m2 = Machine(F, strict=True, hooks=hooks2)
+            plan = Adt("plan::Plan", "Plan", {"template": PyVec([tuple(x) for x in stack]), "absolute_timelock": NONE,
+                                              "relative_timelock": NONE, "descriptor": Term("descriptor")})
+            r = m2.call_callee({"def": psat, "resolved": psat, "name": "satisfy", "targs": ["PK", "SAT"]}, [plan, Term("stfr")])
+            n += 1
+            full = stack + ([REDEEM] if dt == "Sh" else [])
+            direct = deref(m.call_path(wts, [PyVec([PyVec(list(e)) for e in full])]))
+            bad = []
+            if r.variant != "Ok":
+                bad.append("result %r" % (r,))
+            else:
+                wit, ssig = deref(r.fields["0"])
+                if len(deref(wit).items) != 0:
+                    bad.append("a witness %r for a pre-segwit output" % (wit,))
+                if not (isinstance(deref(ssig), tuple) and tuple(map(canon, deref(ssig)[1])) == tuple(map(canon, direct[1]))):
+                    bad.append("scriptSig %r, the direct satisfier writes %r" % (deref(ssig)[1][1:3] if isinstance(deref(ssig), tuple) else ssig, direct[1][1:3]))
+            chk.obligation(rid, not bad, "Plan::satisfy|" + dt, "; ".join(bad)[:600], F.fns[psat]["span"])
+    except Unsupported as e:
+        chk.fail(rid, "unanalysable", "unanalysable: %s" % e, where=e.where, kind="unanalysable")
+    except Panic as e:
+        chk.fail(rid, "panic", "panic: %s" % e, where="src/util.rs")
+    finally:
+        if saved is None:
+            B.TRAIT_TABLE.pop(("std::convert::TryFrom", "try_from"), None)
+        else:
+            B.TRAIT_TABLE[("std::convert::TryFrom", "try_from")] = saved
+    chk.floor(rid, "cases", n, 16)
+
+
 def run(chk):
     F = chk.facts()
     chk.explanation = (
@@ -817,3 +950,4 @@ def run(chk):
     chk.guard("R17.11", "satisfier-as-provider", check_satisfier_as_provider, chk, F)
     chk.guard("R17.12", "completion-loop", check_completion_loop, chk, F)
     chk.guard("R17.13", "into-assets", check_into_assets, chk, F)
+    chk.guard("R17.14", "scriptsig-encoding", check_scriptsig_encoding, chk, F)
